@@ -444,16 +444,18 @@ func (m *Memory) FindLatest(
 		var ret []*amhist.MemoryRecord
 
 	records:
-		for id := m.nextId.Load() - 1; id > 0; id-- {
+		for id := m.nextId.Load() - 1; ; id-- {
 			if ctx.Err() != nil || m.Ctx.Err() != nil {
 				return nil
 			}
 
 			v := b.Get(itob(id))
-			if v == nil {
+			if v == nil && older == nil {
 				m.log("empty hit for %d", id)
 				break
 			}
+			// v == nil: no more records, the oldest one is still to be checked (last
+			// pass)
 
 			// read TimeRecord
 			var err error
